@@ -196,8 +196,8 @@ func (p *path) emit(line string) {
 // fallbackSolvers are tried one-shot, in order, when the incremental session
 // answers unknown: a fresh process of the same solver, then the two others.
 var fallbackSolvers = []SolverSpec{
-	{"z3-4.8.12", []string{"z3", "-in", "-T:60"}},
-	{"z3-5.1.0", []string{"z3-new", "-in", "-T:60"}},
+	{"z3-4.8.12", []string{"z3", "-in", "-T:60", "-memory:6000"}},
+	{"z3-5.1.0", []string{"z3-new", "-in", "-T:60", "-memory:6000"}},
 	{"cvc5-1.0", []string{"cvc5", "--lang=smt2", "--strings-exp", "--tlimit=60000"}},
 }
 
@@ -303,7 +303,11 @@ func (p *path) solveFresh(extra string) string {
 func (p *path) checkHungSafe(g string) (r string) {
 	defer func() {
 		if e := recover(); e != nil {
-			if !p.sv.hung {
+			// the solver process is gone: killed by the watchdog (it ignored its time limit), by its own memory limit or by
+			// the kernel's OOM killer (z3 was seen to grow to 8 GB on single queries). Either way the query is undecided.
+			ee, isEngine := e.(engineError)
+			died := isEngine && (strings.Contains(ee.msg, "solver died") || strings.Contains(ee.msg, "solver write failed"))
+			if !p.sv.hung && !died {
 				panic(e)
 			}
 			atomic.AddInt64(&p.ex.res.SolverHangs, 1)
